@@ -78,10 +78,66 @@ pub fn oracle(tr: &Transition) -> Vec<Violation> {
     v
 }
 
+/// State rider: operations that fail part way must be as reproducible as those that succeed. A
+/// delete of several versions that names a missing version, or whose second directory removal
+/// fails, is replayed from the same snapshot under two runtime flavours and compared.
+pub fn on_state(st: &hist::HState, scratch: &crate::util::Scratch, _srcs: &crate::common::SrcCache) -> Vec<(Violation, Value)> {
+    let mut out = Vec::new();
+    let ids = st.snap.band_ids();
+    let newest_complete = ids.last().is_some_and(|b| st.snap.has_tail_file(*b));
+    if ids.len() < 2 || !newest_complete {
+        return out;
+    }
+    let mut with_missing = vec![ids[0], 9999];
+    with_missing.extend(ids[1..].iter().cloned());
+    let plans: Vec<(Vec<u32>, crate::hook::Plan, &str)> = vec![
+        (with_missing, crate::hook::Plan::none(), "delete-naming-a-missing-version"),
+        (
+            ids.clone(),
+            crate::hook::Plan {
+                fail_nth_verb: Some((conserve::transport::record::Verb::RemoveDirAll, 1, conserve::transport::ErrorKind::Other)),
+                ..Default::default()
+            },
+            "delete-whose-second-removal-fails",
+        ),
+    ];
+    for (bands, plan, name) in plans {
+        let mut results = Vec::new();
+        for flavor in [Flavor::Current, Flavor::Multi(2), Flavor::Current] {
+            let dir = scratch.fresh("pf");
+            st.snap.store(&dir);
+            let icpt = crate::hook::Icpt::new(&dir, plan.clone());
+            let o = run::do_delete(&dir, &bands, false, false, Some(&icpt), flavor, None);
+            REEXEC.fetch_add(1, Ordering::Relaxed);
+            results.push((o.op.is_ok(), Snap::load(&dir).canonical()));
+            let _ = std::fs::remove_dir_all(&dir);
+        }
+        for r in &results[1..] {
+            if r.0 != results[0].0 || r.1 != results[0].1 {
+                out.push((
+                    Violation::new(
+                        format!("C17:archive-differs-between-replays:{name}"),
+                        format!(
+                            "seed {} after {:?}: delete {bands:?} ({}) replayed from the same snapshot: {}",
+                            st.seed,
+                            st.describe_path(),
+                            plan.describe(),
+                            first_difference(&results[0].1, &r.1)
+                        ),
+                    ),
+                    hist::case_json("C17", st.seed, &st.path),
+                ));
+                break;
+            }
+        }
+    }
+    out
+}
+
 pub fn run(report: &Report, budget: &Budget) {
     let thorough = report.thorough();
     let depth = if thorough { 3 } else { 2 };
-    let st = hist::explore(report, budget, "C17", depth, thorough, false, thorough, &oracle, None, None);
+    let st = hist::explore(report, budget, "C17", depth, thorough, false, thorough, &oracle, Some(&on_state), None);
     hist::write_stats(report, &st, depth);
     let re = REEXEC.load(Ordering::Relaxed);
     report.set("re_executions_under_other_flavours", json!(re));
@@ -91,5 +147,5 @@ pub fn run(report: &Report, budget: &Budget) {
 }
 
 pub fn replay(case: &Value) -> Vec<Violation> {
-    hist::replay(case, &oracle, None)
+    hist::replay(case, &oracle, Some(&on_state))
 }
